@@ -602,6 +602,15 @@ def r_lock_guards(ctx):
                 ctx.ok(inst, m.loc(a.node), 'dominated by the true edge of the expiry test')
             else:
                 ctx.violation('_ReplLockManagerImpl.prolongate:drop-unguarded', m.loc(a.node), 'a lock is dropped without an expiry test', instance=inst)
+    # ... and it does refresh: an entry of the caller is rewritten with the current time
+    refresh = [a for a in P.accesses(m) if a.attr == table and a.kind == 'elem_write' and isinstance(a.node, ast.Assign)
+               and any(isinstance(x, ast.Name) and x.id == m.params[2] for x in ast.walk(a.node.value))]
+    ctx.tick()
+    if refresh:
+        ctx.ok('prolongate rewrites the caller\'s entries with the current time', m.loc(refresh[0].node), unparse(refresh[0].node))
+    else:
+        ctx.violation('_ReplLockManagerImpl.prolongate:refreshes-nothing', m.loc(), 'prolongate never rewrites a lock entry with the current time: a lock that its live holder keeps '
+                      'prolonging still expires after the auto-unlock time while the holder goes on using it', instance='prolongate refreshes the caller\'s locks')
     # isAcquired
     m = c.methods['isAcquired']
     ex = U.explorer(ctx, m)
@@ -782,6 +791,25 @@ def r_late_acquire(ctx):
                 ctx.violation('ReplLockManager.tryAcquire:elapsed-mixes-clocks', ta.loc(n.ast),
                               '`%s` subtracts a reading of %s() from a reading of %s(): the difference is meaningless, the late-acquisition test never (or always) fires' % (unparse(el), c2, c1),
                               instance=inst)
+    # the asynchronous path reports to the caller: the completion callback calls the user callback on every path
+    for g in funcs:
+        if g is ta:
+            continue
+        gcfg = U.explorer(ctx, g).cfg
+        ucb = [p_ for p_ in ta.params if p_ == 'callback'] or [p_ for p_ in ta.params[1:] if any(
+            isinstance(c, ast.Call) and isinstance(c.func, ast.Name) and c.func.id == p_ for c in ast.walk(g.node))]
+        if not ucb:
+            continue
+        calls = [n.id for n in gcfg.nodes if n.kind in ('stmt', 'cond') and n.ast is not None and any(
+            isinstance(c, ast.Call) and isinstance(c.func, ast.Name) and c.func.id == ucb[0] for c in ast.walk(n.ast))]
+        inst = 'asynchronous acquisition reports its result to the user callback'
+        ctx.tick()
+        if calls and gcfg.exit.id not in gcfg.reachable_from(gcfg.entry.id, avoid=calls, follow_exc=False):
+            ctx.ok(inst, ta.loc(g.node), '%s calls `%s(..)` on every path' % (g.name, ucb[0]))
+        else:
+            ctx.violation('ReplLockManager.tryAcquire:async-result-not-reported', ta.loc(g.node),
+                          'the completion callback of the asynchronous tryAcquire can return without calling the user callback: the client is never told whether it holds the lock',
+                          instance=inst)
     # the elapsed time measures from before the acquire command was issued
     inst = 'attempt time taken before the acquire is issued'
     ctx.tick()
